@@ -267,7 +267,11 @@ class State:
             raise NameError(f"invalid name {var_attr_name} (should be 'domain.entity.attr')")
         if not cls.exist(f"{parts[0]}.{parts[1]}"):
             raise NameError(f"state {parts[0]}.{parts[1]} doesn't exist")
-        cls.set(f"{parts[0]}.{parts[1]}", **{parts[2]: value})
+        var_name = f"{parts[0]}.{parts[1]}"
+        # do not pass the attribute as a keyword: names like "value" would bind State.set's own parameters
+        new_attributes = cls.hass.states.get(var_name).attributes.copy()
+        new_attributes[parts[2]] = value
+        cls.set(var_name, new_attributes=new_attributes)
 
     @classmethod
     async def register_persist(cls, var_name):
